@@ -145,6 +145,16 @@ def mods():
             g = self.A.T @ dy
             return g, g
 
+    class C02Flat(pym.Module):
+        """y = x.ravel() for an input of any shape (used to consume 2-D slices)"""
+        def _response(self, x):
+            self.shape = np.shape(x)
+            return np.ravel(x).copy()
+
+        def _sensitivity(self, dy):
+            return np.reshape(dy, self.shape)
+
+    _MODS["flat"] = C02Flat
     _MODS["sumlin"] = C02SumLin
     _MODS.update(dict(tanh=C02Tanh, cube=C02Cube, lin=C02Lin, bilin=C02Bilin, twoout=C02TwoOut, sum=C02SumSq))
     return _MODS
@@ -156,6 +166,7 @@ class Sig:
     def __init__(self, real, val, jac):
         self.real, self.val, self.jac = real, val, jac
         self.consumers = 0
+        self.twoD = False      # .real holds a 2-D state; val/jac are its row-major flattening
 
 
 def resolve_slice(spec, n, rng_unused=None):
@@ -217,6 +228,15 @@ def check_case(case):
         # consumed only through tuple slices: expose row 1 and column 2 as 1-D signals
         sigs.append(Sig(s[1, :], val[1, :], Jm.reshape(2, 3, ntot)[1, :, :]))
         sigs.append(Sig(s[:, 2], val[:, 2], Jm.reshape(2, 3, ntot)[:, 2, :]))
+        # mixed basic/advanced tuple slices of the 2-D source (numpy returns copies, some of them with a non-None .base):
+        # column selection by index array, row range + index array, boolean column mask. They stay 2-D and are consumed
+        # through a flattening module.
+        Jm3 = Jm.reshape(2, 3, ntot)
+        for idx in ((slice(None), np.array([0, 2])), (slice(1, None), np.array([2, 0])),
+                    (slice(None), np.array([True, False, True]))):
+            sg2 = Sig(s[idx], val[idx].ravel(), Jm3[idx].reshape(-1, ntot))
+            sg2.twoD = True
+            sigs.append(sg2)
         labels.append("tuple_slice")
         labels.append("slice")
         off += 6
@@ -224,9 +244,20 @@ def check_case(case):
     modules = []
 
     def take(ref, spec):
-        """Input operand: (signal object to wire, value, jacobian)."""
-        sg = sigs[ref % len(sigs)]
+        """Input operand: (signal object to wire, value, jacobian). ref is taken modulo the current pool size."""
+        return take_abs(ref % len(sigs), spec)
+
+    def take_abs(index, spec):
+        sg = sigs[index]
         sg.consumers += 1
+        if sg.twoD:
+            # consume the 2-D slice through a flattening module; the flattened copy becomes an ordinary 1-D signal
+            flat = pym.Signal(f"flat{len(sigs)}")
+            modules.append(M["flat"](sg.real, flat))
+            sg = Sig(flat, sg.val.copy(), sg.jac.copy())
+            sigs.append(sg)
+            sg.consumers += 1
+            labels.append("slice:mixed_2d")
         n = sg.val.size
         idxs, rows = resolve_slice(spec, n)
         real = sg.real
@@ -246,7 +277,10 @@ def check_case(case):
     for inode, nd in enumerate(case["nodes"]):
         kind, m = nd["kind"], nd["m"]
         slc0 = None if kind == "sumlin" else nd["slc"][0]     # sumlin takes whole, preferably distinct, signals
-        r0, v0, J0, g0 = take(nd["in"][0], slc0)
+        idx0 = nd["in"][0] % len(sigs)                         # resolved once: the pool may grow while operands are taken
+        r0, v0, J0, g0 = take_abs(idx0, slc0)
+        if sigs[idx0].twoD:
+            idx0 = len(sigs) - 1                               # the flattened copy that was just appended
         n0 = v0.size
         tag = f"n{inode}"
         if kind == "tanh":
@@ -274,7 +308,7 @@ def check_case(case):
                     cand = [i for i in cand if sigs[i] is not g0]
                 if slc0 is not None or not cand:
                     # first operand is sliced (or unique in length): pair it with the same expression
-                    r1, v1, J1, g1 = take(nd["in"][0], slc0)
+                    r1, v1, J1, g1 = take_abs(idx0, slc0)
                 else:
                     r1, v1, J1, g1 = take(cand[nd["in"][1] % len(cand)], None)
             else:
@@ -391,6 +425,8 @@ def check_case(case):
         return labels, V
     for i, s in enumerate(sigs):
         got = s.real.state
+        if got is not None and s.twoD:
+            got = np.ravel(got)
         if got is None or np.shape(got) != s.val.shape or not np.allclose(got, s.val, rtol=1e-11, atol=1e-12):
             bad("state", f"signal {i} ({s.real.tag}) state {got} expected {s.val}")
             return labels, V
@@ -403,7 +439,7 @@ def check_case(case):
     # seeding sources themselves is possible as well (their own sensitivity is then part of the expected total)
     top.reset()
     for i, w in seeded.items():
-        sigs[i].real.add_sensitivity(w.copy())   # additive: two seeded slices of one base may overlap
+        sigs[i].real.add_sensitivity(w.reshape(np.shape(sigs[i].real.state)).copy())   # additive: seeded slices may overlap
     try:
         top.sensitivity()
     except Exception as e:
